@@ -45,6 +45,8 @@ PROBES = [
     "full-directional-visibility-retry",
     "frontier-cache-hit",
     "walk-restarted",
+    "walk-abandoned",
+    "walk-restarted-with-the-old-frontier-cache",
     "stable-keys-checked",
     "two-walks-in-progress",
     "walker-pinned-to-a-version",
@@ -94,9 +96,10 @@ class Walker:
         self.pinned = pinned
         self.reset()
 
-    def reset(self):
+    def reset(self, keep_cache=False):
         self.fog = HexaryTrieFog()
-        self.cache = TrieFrontierCache() if self.use_cache else None
+        if not (keep_cache and getattr(self, "cache", None) is not None):
+            self.cache = TrieFrontierCache() if self.use_cache else None
         self.started = False
         self.done = False
         self.met = []
@@ -167,9 +170,15 @@ class World(HWorld):
 
     def op_walk_new(self, h, cmd):
         w = self.walkers[cmd.get("w", 0) % len(self.walkers)]
-        if not w.done:
+        if not w.done and not (cmd.get("abandon") and w.started):
             return "skip"
-        w.reset()
+        if not w.done:
+            # the walk in progress is given up; the next one starts with a fresh fog and,
+            # if the client so chooses, with the frontier cache the old one left behind
+            self.st.probe("walk-abandoned")
+        if cmd.get("keep_cache") and w.cache is not None:
+            self.st.probe("walk-restarted-with-the-old-frontier-cache")
+        w.reset(keep_cache=bool(cmd.get("keep_cache")))
         self.st.probe("walk-restarted")
         return "ok"
 
@@ -372,7 +381,7 @@ def generate(rng):
             else:
                 cmds.append(g.mutation("live"))
         if rng.random() < 0.03:
-            cmds.append({"op": "walk_new", "w": rng.randrange(nw)})
+            cmds.append({"op": "walk_new", "w": rng.randrange(nw), "abandon": int(rng.random() < 0.5), "keep_cache": int(rng.random() < 0.6)})
     for i in range(nw):
         cmds.append({"op": "walk_finish", "w": i, "qs": [list(gen_query(rng, pool)) for _ in range(rng.choice([1, 3, 5]))]})
     pinned = [int(rng.random() < 0.35) for _ in range(nw)]
